@@ -33,13 +33,13 @@ CLAIMED = {
          "Trees built through the public constructors and builder sequences are compared, row by row and block by block, with the boolean combination the caller wrote (harness AST with reference leaf semantics); every expression and Query is round-tripped through encoding/json (same verdicts, stable bytes).",
          "Builder orders whose meaning is unspecified (chained calls before Match) carry no verdict; strings valid UTF-8.", "6/C25"),
  "C20": ("exploration", "consumer-script monitor over the real cursor with fault/delay plans at instrumented stores and tagged schedule points, under the race detector",
-         "Hundreds of generated Next/cancel/Close/concurrent-Close scripts (plain cancellable contexts and contexts carrying a far-away deadline, cancelled directly or through their parent) with injected OpenFile/Read/Seek/iterator failures and PRNG delays run against started, never-started and stopped engines; a concurrent Close is held behind the consumer's final Next and the state read then must be the state after Close returned; the terminal state (sticky false, nil Row, Err classification by happens-before, every reached failure reported, Close nil/idempotent/not changing a decided state) is checked per script; blocked scripts are decided by a state-based stuck detector.",
+         "Hundreds of generated Next/cancel/Close/concurrent-Close scripts (incl. cancel, then a pause long enough for the pipeline to wind down, then Next) (plain cancellable contexts and contexts carrying a far-away deadline, cancelled directly or through their parent) with injected OpenFile/Read/Seek/iterator failures and PRNG delays run against started, never-started and stopped engines; a concurrent Close is held behind the consumer's final Next and the state read then must be the state after Close returned; the terminal state (sticky false, nil Row, Err classification by happens-before, every reached failure reported, Close nil/idempotent/not changing a decided state) is checked per script; blocked scripts are decided by a state-based stuck detector.",
          "Err after the consumer's own Close accepts nil/joined errors/context error (documented). Race detector reports with a bloomsearch frame are violations.", "6/C20"),
  "C21": ("exploration", "handle life-cycle / iterator / goroutine / slot monitors at the instant the cursor finishes, under the race detector",
-         "Same scripts as C20: when the final Next returned false or Close returned, every DataStore handle the query opened is closed exactly once, none was used after close or by two operations at once (atomic in-use flag plus plain shadow field for the race detector), the MetaStore iterator has returned; goroutines started by Query and the engine's slot gauge are polled to zero.",
+         "Same scripts as C20: when the final Next returned false or Close returned, every DataStore handle the query opened is closed exactly once and its Close call (which the store may make slow) has returned, none was used after close or by two operations at once (atomic in-use flag plus plain shadow field for the race detector), the MetaStore iterator has returned; goroutines started by Query and the engine's slot gauge are polled to zero.",
          "Goroutine exit polled up to 5 s (stable-state rule).", "6/C21"),
  "C22": ("exploration", "in-flight Read gauge on the instrumented DataStore + bounded-progress monitor with stalled consumers, under the race detector",
-         "Concurrent queries over slow reads: max simultaneous DataStore reads never exceeds MaxQueryConcurrency (1..8); queries whose consumers never read — or read a little after the pipeline settled and then stop, with their MetaStore iterators paused after a few files — are parked and all other queries must still complete (stuck detector).",
+         "Concurrent queries over slow reads: max simultaneous DataStore reads never exceeds MaxQueryConcurrency (1..8), also over files whose block filter pass takes one read per block (filter sections laid out in reverse order); queries whose consumers never read — or read a little after the pipeline settled and then stop, with their MetaStore iterators paused after a few files — are parked and all other queries must still complete (stuck detector).",
          "Gauge covers reads made by queries only (nothing else runs in the window).", "6/C22"),
  "C23": ("exploration", "Stats-vs-inventory monitor after every finished query (clean, terminated and failing)",
          "After Next returned false the per-block stats are checked: unique (file, offset), skipped blocks carry zero counters, blocks that produced returned rows are listed as processed, all-or-none per file against must/may, on clean completion processed counters equal the block's real row/byte counts, totals equal sums, RowsMatched equals rows returned. Runs on the C01 scenario stream and on the C20 scripts.",
@@ -48,13 +48,13 @@ CLAIMED = {
          "For each query (every fifth one meets a transient OpenFile/Read failure), files whose file-level filters rule out the bloom tree must not be opened, row data of blocks ruled out by prefilter or block filters (bloom tree, or a field the regex conditions need being absent from the block's field filter) must not be read, condition-less queries must not touch a filter region, and every read must lie inside the file and the declared extents.",
          "File level: only the bloom tree defines 'ruled out'; block level: bloom tree and the field-presence demand of the regex tree (weakest reading). Trees with unknown node kinds carry no verdict.", "6/C24"),
  "C05": ("exploration", "exactly-once ledger over done channels under concurrent producers, Start/Stop races, PRNG store faults and schedule-point delays, with the race detector",
-         "Histories of 2-24 concurrent producers (all batch and done-channel kinds, Flush callers) with Start early/late/twice/never, Stop racing with them, queries and merges alongside and flush-path store failures: after Stop returned nil every accepted batch has exactly one answer, refused batches have none, every Flush call has returned, both workers have exited. Most batches of some histories report to one shared done channel (capacity 1-2); Stop is also called from two goroutines at once and again after it returned. In a third of the histories callers are held between the stopped check and the channel send while Stop runs, at a tagged point and through caller contexts whose Done() is slow. Stuck detector for bounded progress.",
+         "Histories of 2-24 concurrent producers (all batch and done-channel kinds, rejected batches of up to 160 rows with several bad rows spread over partitions, Flush callers) with Start early/late/twice/never, Stop racing with them, queries and merges alongside and flush-path store failures: after Stop returned nil every accepted batch has exactly one answer, refused batches have none, every Flush call has returned, both workers have exited. Most batches of some histories report to one shared done channel (capacity 1-2); Stop is also called from two goroutines at once and again after it returned. In a third of the histories callers are held between the stopped check and the channel send while Stop runs, at a tagged point and through caller contexts whose Done() is slow. Stuck detector for bounded progress.",
          "'Keeps receiving' = receiver parked before the call; callers use context timeouts on a never-started engine.", "6/C05"),
  "C06": ("fault_enumeration", "store-call fault enumeration over recorded sequential histories; answers compared with queries on this and a fresh engine",
          "Every single flush-path store-call position of each explored history (CreateFile, every Write, Close pre- and post-effect, Update) is failed in turn, then every cleanup call (Abort/TombstoneFile/Close) the failure provoked, plus PRNG pairs; after every Flush and at the end: nil answer => rows visible exactly once on this and a fresh engine, error answer => never visible, unmarshalable batch => error and no trace, no batch unanswered or answered twice.",
          "Exhaustive over single positions of the explored histories; histories themselves are sampled. MetaStore.Update atomic (MemoryMetaStore behind the wrapper).", "6/C06"),
  "C07": ("exploration", "gated-store workload + late-receiver histories + monotone len() monitor over never-consumed buffered done channels + visibility query at every Flush return, with the race detector",
-         "A flush-path store call is held at a gate while clients keep sending batches and Flush calls; a polling monitor over the buffered done channels (monotone state) and a check at every Flush return require that whenever a batch is answered nil or Flush returns nil, every non-empty batch accepted earlier is already answered, and those answered nil are visible to a query. Late-receiver histories: an earlier batch's unbuffered done channel gets its receiver only after a later subject was seen answered (or 250 ms) — an explicit Flush, a limit- or time-triggered flush of a later batch, or a Flush arriving after the earlier batch's own flush committed but before its answer was delivered; a later subject answered before that is a violation. Some gated histories hold a time-triggered flush at the gate with nothing queued behind it.",
+         "A flush-path store call is held at a gate while clients keep sending batches and Flush calls; a polling monitor over the buffered done channels (monotone state) and a check at every Flush return require that whenever a batch is answered nil or Flush returns nil, every non-empty batch accepted earlier is already answered, and those answered nil are visible to a query. Late-receiver histories: an earlier batch's unbuffered done channel gets its receiver only after a later subject was seen answered (or 250 ms) — an explicit Flush, a limit- or time-triggered flush of a later batch, or a Flush arriving after the earlier batch's own flush committed but before its answer was delivered; a later subject answered before that is a violation. Some gated histories hold a time-triggered flush at the gate with nothing queued behind it; in every third history each batch lives in one of 2-4 partitions and only the partition row limit triggers flushes.",
          "Order = real-time precedence on the harness's logical clock; empty batches are not subjects.", "6/C07"),
  "C08": ("exploration", "wedged-store/unreachable-backend/abandoned-channel workloads x context kinds (incl. a foreign context with late AfterFunc) with store-call log and stop.flagged hook, under the race detector",
          "Stop is called while a flush is held at a ctx-ignoring gate, the backend is unreachable behind a store that honours contexts (and stays so after Stop returned: the deadline abort alone must unwind the workers and answer every waiter that can receive), and/or done channels are abandoned (batches of every kind, incl. those the ingest actor answers itself); Flush calls issued while the worker is held must return, and with an error once the deadline aborted the flushes ahead of them: callers starting after the stop.flagged hook get ErrEngineStopped; Stop returns on its own (the gate stays shut until then or deadline + 8 s); after a deadline error no CreateFile starts (store log ticks); after unwedging, workers exit and every waiter with capacity has exactly one value.",
@@ -83,7 +83,7 @@ CLAIMED = {
  "C03": ("exploration", "DeepEqual against the encoding/json round trip + fingerprint-then-mutate monitor over concurrent queries, under the race detector (+checkptr)",
          "16-48 concurrent queries over blocks of varied sizes and all compressions with PRNG delays at the query schedule points, plus an early-termination phase on blocks of several hundred rows (consumers keep rows of queries they then Close/cancel mid-block while later queries re-draw the pooled buffers); every returned row must equal the encoding/json round trip of the ingested row, and after the harness deep-mutates half of the retained rows every other retained row and a fresh query must be unchanged.",
          "Rows encoding/json cannot decode are compared by _vid only. Known finding: raw JSON with repeated keys.", "6/C03"),
- "C19": ("exploration", "mutation workload (byte-level, CRC-consistent framing, checksum-consistent deep mutations) with panic/fatal/allocation/row-content monitors",
+ "C19": ("exploration", "mutation workload (byte-level, CRC-consistent framing, checksum-consistent deep mutations, truncation under hash-less MetaStore-held metadata behind os.File handles) with panic/fatal/allocation/row-content/read-beyond-end monitors",
          "Thousands of mutated files (bit flips, bursts, truncations at structural boundaries, extensions, splices, zeroed ranges; footer re-encoded with consistent CRC and boundary-valued or foreign in-bounds offsets/sizes incl. UncompressedSize and Rows, traded, nested, overlapping or re-ordered filter sections, duplicated / missing / shared blocks; files re-assembled with every checksum consistent but a malformed row stream, filter section, bloom header or size), each written to disk before use: no panic or fatal error, allocation per call bounded by 16x(file + original uncompressed sizes) + 8 MiB, original-metadata queries return the exact answer or an error, every returned row is a written row.",
          "Two defects found by these mutations were repaired in /repo (fa95dcf, f17c844). For deep mutations the wrong-row clause is asserted only where the framed rows are still byte-identical to written rows.", "6/C19"),
  "C26": ("exploration", "statistical probe of every written filter with never-inserted strings against the documented 3x tolerance + 6 sigma",
